@@ -168,7 +168,11 @@ impl ActionRec {
             ),
             2 => format!(
                 "Block(m{} b{} r{} to{}ns dur{}ns)",
-                self.machine, self.bypass as u8, self.replace as u8, self.timeout_ns, self.duration_ns
+                self.machine,
+                self.bypass as u8,
+                self.replace as u8,
+                self.timeout_ns,
+                self.duration_ns
             ),
             _ => format!(
                 "Timer(m{} r{} dur{}ns)",
@@ -333,7 +337,11 @@ pub fn run_case(
         Ok(f) => f,
         Err(e) => {
             if panic_is_violation {
-                violations.push(Violation::new("new-failed", e.clone(), Some(case.to_json())));
+                violations.push(Violation::new(
+                    "new-failed",
+                    e.clone(),
+                    Some(case.to_json()),
+                ));
             } else {
                 stats.inc("aborted_in_sut");
             }
@@ -354,7 +362,10 @@ pub fn run_case(
                 stats.add("events", call.ev.len() as u64);
                 stats.add("actions", out.actions.len() as u64);
                 if call.now > prev_now {
-                    stats.add("sim_time_us", (call.now - prev_now).min(86_400_000_000_000) / 1000);
+                    stats.add(
+                        "sim_time_us",
+                        (call.now - prev_now).min(86_400_000_000_000) / 1000,
+                    );
                 }
                 prev_now = call.now;
                 for e in &call.ev {
@@ -602,8 +613,8 @@ impl Integrator {
                                         }
                                     }
                                 } else {
-                                    let until =
-                                        t.saturating_add(a.duration_ns.min(u64::MAX as u128) as u64);
+                                    let until = t
+                                        .saturating_add(a.duration_ns.min(u64::MAX as u128) as u64);
                                     match self.blocking {
                                         None => self.blocking = Some((until, a.bypass)),
                                         Some((cur, _)) => {
@@ -697,7 +708,10 @@ pub fn gen_history(
     let mut calls: Vec<Call> = vec![];
     let Ok(mut fw) = case0.build() else {
         // the replay will report it
-        return vec![Call { now: start, ev: vec![] }];
+        return vec![Call {
+            now: start,
+            ev: vec![],
+        }];
     };
     maybenot::verif::enable(false);
     let m = machines.len();
@@ -899,7 +913,14 @@ pub fn gen_rng_spec(g: &mut Gen, p_script: f64, stats: &mut Stats) -> RngSpec {
                 }
                 3 => 0x1ff,
                 4 => 1 << 63,
-                _ => *g.pick(&[0, u64::MAX, 0xffff_ffff_ff00_0000, 1, 0x8000_0000_0000_0000, 0x1ff]),
+                _ => *g.pick(&[
+                    0,
+                    u64::MAX,
+                    0xffff_ffff_ff00_0000,
+                    1,
+                    0x8000_0000_0000_0000,
+                    0x1ff,
+                ]),
             })
             .collect();
         RngSpec::Script {
